@@ -56,9 +56,22 @@ def r1_threading(ctx):
                   "the tuple carried to the next step is this step's filter result", bad="the filter result is discarded", fn=qn)
     if not n:
         ctx.add("R1", qn + "|paths", "UNDECIDED", "no normal path with a filter call", fn=qn)
-    okr = all(any(e.kind == "setattr" and e.data[1] == "region_" and e.data[2][0] == "call" and callee(e.data[2]) == "verde.coordinates.get_region"
-                  and e.data[2][2] == (("sub", ("param", "coordinates"), ("slice", NONE, const(2), NONE)),) for e in p.events) for p in ctx.paths(qn) if p.normal)
-    ctx.check("R6", qn + "|region_", True if okr else None, "region_ = get_region(coordinates[:2])", fn=qn)
+    for p in ctx.paths(qn):
+        if not p.normal:
+            continue
+        regs = [e.data[2] for e in p.events if e.kind == "setattr" and e.data[1] == "region_" and e.data[0] == Q.SELF]
+        ok, why = None, ""
+        if not regs:
+            ok, why = False, "Chain.fit does not set region_"
+        else:
+            r = regs[-1]
+            if r[0] == "call" and callee(r) == "verde.coordinates.get_region" and r[2]:
+                a = r[2][0]
+                if a == ("sub", ("param", "coordinates"), ("slice", NONE, const(2), NONE)) or a == ("param", "coordinates"):
+                    ok = True
+                elif any(x[0] in ("mu", "prev") or (x[0] == "call" and callee(x) == ".filter") for x in walk(a)):
+                    ok, why = False, "region_ is the bounding box of what the last step's filter returned (e.g. block-reduced coordinates), not of the data given to fit"
+        ctx.check("R6", qn + "|region_", ok, "region_ = get_region(coordinates[:2]) of the coordinates given to fit", bad=why, fn=qn)
 
 
 def r2_sum(ctx):
